@@ -838,3 +838,126 @@ Proof.
   - vm_compute in Hr. discriminate.
   - vm_compute. lia.
 Qed.
+
+(* ========================================================================== *)
+(* Completeness of the certificate checker: every linearization order of a
+   well-formed history is accepted.                                            *)
+(* ========================================================================== *)
+
+Lemma resp_after_inv_complete : forall h seen,
+  (forall h1 id oc h2, h = h1 ++ Resp id oc :: h2 -> In id (inv_ids h1) \/ In id seen) ->
+  resp_after_inv seen h = true.
+Proof.
+  induction h as [|e t IH]; intros seen H; [reflexivity|].
+  destruct e as [i0 o0|i0 oc0]; cbn.
+  - apply IH. intros h1 id oc h2 E.
+    destruct (H (Inv i0 o0 :: h1) id oc h2) as [Hin|Hin]; [cbn; rewrite E; reflexivity| |].
+    + cbn in Hin. destruct Hin as [Hin|Hin]; [right; left; exact Hin|left; exact Hin].
+    + right. right. exact Hin.
+  - apply andb_true_iff. split.
+    + destruct (H [] i0 oc0 t eq_refl) as [[]|Hin]. apply memN_In. exact Hin.
+    + apply IH. intros h1 id oc h2 E.
+      destruct (H (Resp i0 oc0 :: h1) id oc h2) as [Hin|Hin]; [cbn; rewrite E; reflexivity| |].
+      * left. exact Hin.
+      * right. exact Hin.
+Qed.
+
+Lemma wf_histb_complete : forall h, wf_hist h -> wf_histb h = true.
+Proof.
+  intros h [H1 [H2 H3]]. unfold wf_histb.
+  rewrite (proj2 (nodupb_NoDup _) H1), (proj2 (nodupb_NoDup _) H2). cbn.
+  apply resp_after_inv_complete. intros h1 id oc h2 E. left. eapply H3. exact E.
+Qed.
+
+Lemma resp_ids_app : forall h1 h2, resp_ids (h1 ++ h2) = resp_ids h1 ++ resp_ids h2.
+Proof.
+  induction h1 as [|e t IH]; intros h2; [reflexivity|].
+  destruct e; cbn; rewrite IH; reflexivity.
+Qed.
+
+Lemma find_resp_first : forall h1 id oc h2,
+  ~ In id (resp_ids h1) -> find_resp (h1 ++ Resp id oc :: h2) id = Some (length h1, oc).
+Proof.
+  induction h1 as [|e t IH]; intros id oc h2 Hn; cbn.
+  - rewrite N.eqb_refl. reflexivity.
+  - destruct e as [i0 o0|i0 oc0]; cbn in Hn.
+    + rewrite IH by exact Hn. reflexivity.
+    + destruct (N.eqb i0 id) eqn:E.
+      * apply N.eqb_eq in E. exfalso. apply Hn. left. exact E.
+      * rewrite IH; [reflexivity|]. intros Hin. apply Hn. right. exact Hin.
+Qed.
+
+Lemma wf_completed_event : forall h id r,
+  wf_hist h -> In (Resp id (Completed r)) h -> exists j, find_comp h id = Some (j, r).
+Proof.
+  intros h id r [_ [Hnd _]] Hin. apply in_split in Hin. destruct Hin as [h1 [h2 E]].
+  subst h. rewrite resp_ids_app in Hnd. cbn in Hnd. apply NoDup_remove_2 in Hnd.
+  exists (length h1). unfold find_comp. rewrite find_resp_first; [reflexivity|].
+  intros Hin. apply Hnd. apply in_or_app. left. exact Hin.
+Qed.
+
+Lemma lin_results_ids : forall h lin s,
+  map fst (lin_results h s lin) =
+  filter (fun id => match op_of h id with Some _ => true | None => false end) lin.
+Proof.
+  intros h. induction lin as [|id t IH]; intros s; [reflexivity|].
+  cbn. destruct (op_of h id) as [o|]; cbn; [rewrite IH; reflexivity|apply IH].
+Qed.
+
+Lemma assoc_res_NoDup : forall l id r,
+  NoDup (map fst l) -> In (id, r) l -> assoc_res id l = Some r.
+Proof.
+  induction l as [|[i r'] t IH]; intros id r Hnd Hin; [destruct Hin|].
+  cbn in Hnd. inversion Hnd as [|x l' Hni Hnd']; subst. cbn.
+  destruct Hin as [E|Hin].
+  - inversion E; subst. rewrite N.eqb_refl. reflexivity.
+  - destruct (N.eqb i id) eqn:E.
+    + apply N.eqb_eq in E. subst. exfalso. apply Hni.
+      change id with (fst (id, r)). apply in_map. exact Hin.
+    + apply IH; assumption.
+Qed.
+
+Lemma check_witness_complete_proved : forall h lin,
+  wf_hist h -> linearizes h lin -> check_witness h lin = true.
+Proof.
+  intros h lin Hwf Hl. pose proof Hl as [Hnd [Hall [Href [Hpt Hres]]]].
+  unfold check_witness.
+  rewrite (wf_histb_complete h Hwf), (proj2 (nodupb_NoDup lin) Hnd). cbn.
+  assert (E1 : forallb (fun id => negb (refused h id)) lin = true).
+  { apply forallb_forall. intros id Hin. rewrite (Href id Hin). reflexivity. }
+  rewrite E1. cbn.
+  rewrite (proj1 (effect_points_iff_greedy_proved h lin) Hpt). cbn.
+  unfold completed_ok. apply forallb_forall. intros e He.
+  destruct e as [i o|id oc]; [reflexivity|]. destruct oc; try reflexivity.
+  destruct (wf_completed_event h id r Hwf He) as [j Hc].
+  apply andb_true_iff. split.
+  - apply memN_In. eapply Hall. exact Hc.
+  - rewrite (assoc_res_NoDup _ id r).
+    + apply res_eqb_eq. reflexivity.
+    + rewrite lin_results_ids. apply NoDup_filter_keep. exact Hnd.
+    + eapply Hres. exact Hc.
+Qed.
+
+(* the checker decides "order is a linearization of h" *)
+Lemma check_witness_iff_proved : forall h lin,
+  check_witness h lin = true <-> wf_hist h /\ linearizes h lin.
+Proof.
+  intros h lin. split.
+  - apply check_witness_linearizes.
+  - intros [Hwf Hl]. apply check_witness_complete_proved; assumption.
+Qed.
+
+(* under the hypotheses of the composition theorem the checker accepts the log witness *)
+Lemma log_witness_accepted_proved : forall h log obs cmt,
+  wf_hist h ->
+  C05_at_most_once h log ->
+  C02_state_machine_safety h log obs cmt ->
+  C03_leader_completeness h log cmt ->
+  C12_completed_after_local_apply h log cmt ->
+  C06_read_index_not_stale h obs cmt ->
+  check_witness h (weave h log obs) = true.
+Proof.
+  intros h log obs cmt Hwf H05 H02 H03 H12 H06.
+  apply check_witness_complete_proved; [exact Hwf|].
+  eapply weave_linearizes; eassumption.
+Qed.
